@@ -423,7 +423,9 @@ func (acl *ACL) AuthorizeConnection(conn *net.Conn, cmd []string, command intern
 		return nil
 	}
 
-	if len(append(readKeys, writeKeys...)) > 0 {
+	// (The two lengths are added up rather than appending the slices: they are sub-slices of the command,
+	// and appending to them would overwrite the arguments that follow the keys.)
+	if len(readKeys)+len(writeKeys) > 0 {
 		// 7. Check if nokeys is true
 		if connection.User.NoKeys {
 			return errors.New("not authorised to access any keys")
